@@ -1,5 +1,6 @@
 // C15: skip lists and trees are linearizable ordered sets and maps (DESIGN.md 9/C15); C18 post-conditions.
 #include "sets.h"
+#include "seq.h"
 
 #ifndef FAMILY
 #   define FAMILY 1
@@ -27,7 +28,7 @@ namespace cc = cds::container;
 
 namespace {
 
-const char* prop() { return vh::property() == "C18" ? "C18" : "C15"; }
+const char* prop() { return vh::property() == "C18" ? "C18" : vh::property() == "C20" ? "C20" : "C15"; }
 std::vector<Scenario> g_scen;
 
 // scripted tower heights for skip lists: the level sequence is part of the configuration ("towers forced high and low")
@@ -85,6 +86,11 @@ void family( std::string const& tname, int step, int bq = 2, int bt = 3, bool cu
 {
     typedef TreeAdapter<SetAdapter<Set, Smr, Caps, prop>> A;
     std::string base = tname + "/" + Smr::name();
+    if ( vh::property() == "C20" ) {
+        TProg full = { { INS, 2, 0 }, { INS, 1, 0 }, { INS, 3, 0 } };
+        add_seq_scenarios<A, Caps>( g_scen, base, { 1, 2, 3 }, { 0, 1, 2, 3, 4 }, { TProg(), full }, 3, 4 );
+        return;
+    }
     add_set_programs<A>( g_scen, base, set_grammar( { INS, DEL, HAS }, { 1, 2 }, 2, "g" ), 2, 3, step, bq, bt, std::vector<int>(), step1 );
     std::vector<Program> cur = set_curated( true, true );
     auto P = [&]( std::string name, TProg pre, std::vector<TProg> th ) { Program p; p.name = name; p.prefix = pre; p.threads = th; cur.push_back( p ); };
@@ -195,6 +201,7 @@ struct BronsonWrap {
     template <class F> bool find( int k, F f ) { return m.find( k, [&]( int const& key, long& v ) { Item tmp( key, v ); f( tmp, key ); } ); }
     size_t size() const { return m.size(); }
     bool empty() const { return m.empty(); }
+    void clear() { m.clear(); }
 };
 struct br_traits: public cc::bronson_avltree::traits { typedef std::less<int> less; typedef cds::atomicity::item_counter item_counter; };
 typedef cds::memory::vyukov_queue_pool< cds_verif::mutex > lock_pool;
